@@ -289,3 +289,16 @@ pub fn draw_net(allow_faults: bool) -> (NetCfg, NetCfg, String) {
         (a, b, d)
     }
 }
+
+/// Quiescence of a pair scenario: no task runnable, nothing in flight, nothing unread
+pub async fn quiesce_pair(net: &NetHandle) -> bool {
+    let deadline = tokio::time::Instant::now() + sim::OP_DEADLINE;
+    while tokio::time::Instant::now() < deadline {
+        sim::until_idle().await;
+        if net.idle() {
+            return true;
+        }
+        tokio::time::sleep(std::time::Duration::from_millis(1)).await;
+    }
+    false
+}
